@@ -221,7 +221,7 @@ namespace smt
             {
                 std::vector<lit> others;
                 for (auto it1 = ls.cbegin(); it1 != ls.cend(); ++it1)
-                    if (*it1 != *it0)
+                    if (it1 != it0)
                         others.push_back(!*it1);
                 return new_conj(std::move(others));
             }
@@ -232,8 +232,8 @@ namespace smt
         size_t lits_size = 0;
         std::string s_expr = "amo";
         for (auto it0 = ls.cbegin(); it0 != ls.cend(); ++it0)
-            if (value(*it0) != False && *it0 != p)
-            { // we need to include this literal in the at-most-one..
+            if (value(*it0) != False)
+            { // we need to include this literal in the at-most-one (a repeated literal counts twice, hence it is forced to be false)..
                 p = *it0;
                 s_expr += to_string(p);
                 ls[lits_size++] = p;
@@ -290,7 +290,7 @@ namespace smt
             {
                 std::vector<lit> others;
                 for (auto it1 = ls.cbegin(); it1 != ls.cend(); ++it1)
-                    if (*it1 != *it0)
+                    if (it1 != it0)
                         others.push_back(!*it1);
                 return new_conj(std::move(others));
             }
@@ -301,8 +301,8 @@ namespace smt
         size_t j = 0;
         std::string s_expr = "^";
         for (auto it0 = ls.cbegin(); it0 != ls.cend(); ++it0)
-            if (value(*it0) != False && *it0 != p)
-            { // we need to include this literal in the exact-one..
+            if (value(*it0) != False)
+            { // we need to include this literal in the exact-one (a repeated literal counts twice, hence it is forced to be false)..
                 p = *it0;
                 s_expr += to_string(p);
                 ls[j++] = p;
